@@ -4,6 +4,7 @@
 package main
 
 import (
+	goast "go/ast"
 	"bytes"
 	"crypto/sha256"
 	"encoding/hex"
@@ -382,3 +383,5 @@ func main() {
 }
 
 var generators []func()
+
+type astIf = goast.IfStmt
